@@ -317,7 +317,7 @@ func memOracle(c MemCase, o *h.Obs) *h.Fail {
 			return nil
 		case oErr:
 			if err == nil {
-				return fail("call-missing-error", detail+"|"+p.why+p.whyCell, "%s\nreference: the call must fail (%s %s)\nanko returned %s", head(src), p.why, p.whyCell, ank.Describe(got))
+				return fail("call-missing-error", detail+"|"+p.why+":"+p.whyCell, "%s\nreference: the call must fail (%s %s)\nanko returned %s", head(src), p.why, p.whyCell, ank.Describe(got))
 			}
 			if !same(m.cur(), orig, false) {
 				return fail("call-failed-but-changed", detail, "%s\nthe call failed (%v) but the receiver changed to %s", head(src), err, desc(m.cur()))
